@@ -29,7 +29,7 @@ OPS = ['create', 'create_key_pair', 'register_sym', 'register_cert', 'register_o
 
 def plan(tier):
     return {
-        'level': 'fault_enumeration', 'shards': 16, 'budget_s': 300 if tier == 'quick' else 1800,
+        'level': 'fault_enumeration', 'shards': 16, 'budget_s': 480 if tier == 'quick' else 1800,
         'exhaustive': True,
         'rule': 'for each of %d state-changing operations (as the first or the second request of a two-request '
                 'sequence on a prepared store) a dry run counts the events, then for every k a forked child runs the '
